@@ -29,6 +29,8 @@ def sanitise(fmt, raw16):
         r.correct_scan_line_numbers()
     except ValueError as e:
         return None, "ValueError: %s" % e
+    except Exception as e:      # noqa - any other exception is judged (sanitising only ever removes records)
+        return None, "%s: %s" % (type(e).__name__, e)
     return [(int(a), int(b)) for a, b in zip(r.scans["scan_line_number"], r.scans["sensor_data"][:, 0])], None
 
 
@@ -46,7 +48,7 @@ def gen_sequence(rng, fam, res, thorough):
     """Returns (raw16 list, info) where info describes how it was built."""
     maxl = 15000 if res == "gac" else 65535
     kind = rng.choice(["clean", "gaps", "corrupt", "corrupt", "corrupt", "corrupt-many", "garbage", "wrap", "late-start",
-                       "zeros", "first-corrupt", "top-of-range", "top-of-range"])
+                       "zeros", "first-corrupt", "top-of-range", "top-of-range", "out-of-range", "out-of-range"])
     # the model's median is a (kernel-evaluable) insertion sort, quadratic in the length: long sequences are rare
     n = rng.choice([1, 2, 3, 7, 60, 120, 400, 1500] * 3 + ([3000, 3000, 9000, 14000] if thorough else []))
     hi = min(maxl - 1, 32767 if fam == "pod" else 65535)
@@ -88,6 +90,15 @@ def gen_sequence(rng, fam, res, thorough):
         info["corrupted"] = sorted(i for i in idx if nums[i] != n0 + i)
         kk = len(info["corrupted"])
         info["exact_clause"] = kk < 50 and 2 * kk < n
+    elif kind == "out-of-range":
+        # a few records carry numbers outside the valid range, close to (within 500 of) the expected number where the
+        # field allows it: negative / zero for the signed POD field, >= max for either family
+        cands = [-1, -2, -3, -40, -150, -498, -32768, 0] if fam == "pod" else [maxl, maxl + 1, 65535]
+        if res == "gac":
+            cands += [15000, 15001, 15400, 20000, 32767]
+        for i in rng.sample(range(1, n), min(n - 1, rng.choice([1, 2, 4]))) if n > 2 else []:
+            nums[i] = rng.choice(cands)
+        info["corrupted"] = [i for i in range(n) if nums[i] != n0 + i]
     elif kind == "corrupt-many":
         k = min(n // 3, rng.choice([60, 100, 300]))
         for i in rng.sample(range(n), k):
@@ -121,7 +132,10 @@ def judge(ctx, fmt, raw, info, surv, err):
         in_range = [x for x in nums if 0 <= x < maxl]
         # when every record is implausible (all deviate by more than the threshold from the median offset) nothing is
         # left and numpy's amin raises: the property is silent there. It does speak when records must be kept.
-        must_keep = info["kind"] == "clean" or info.get("exact_clause")
+        must_keep = info["kind"] in ("clean", "out-of-range") or info.get("exact_clause")
+        if not err.startswith("ValueError"):
+            ctx.violation("%s: sanitising raised %s on %s..." % (fmt, err, nums[:8]), payload, cls="raises-other:%s" % fam)
+            return
         if not must_keep:
             ctx.branches["raises-on-all-implausible(no verdict)"] += 1
         if in_range and must_keep:
@@ -147,7 +161,11 @@ def judge(ctx, fmt, raw, info, surv, err):
             if surv != want:
                 extra = sorted(set(want) - set(surv))
                 missing = sorted(set(surv) - set(want))
-                first_case = bool(extra) and extra[0][1] == 0 and fam == "pod"
+                # the listed finding: POD's leading-line step drops every record stored before the one that holds the
+                # lowest number - here: all wrongly removed records form that leading block, nothing else is wrong
+                lowest = min(want)[1] if want else 0
+                first_case = (fam == "pod" and bool(extra) and not missing and all(e[1] < lowest for e in extra)
+                              and surv == [w for w in want if w[1] >= lowest])
                 what = "%s: %s pass n0=%d len=%d, %d corrupted: " % (fmt, info["kind"], n0, len(nums), len(info["corrupted"]))
                 if extra:
                     what += "record %d (number %d, expected %d, deviation %d <= 500) was removed" % (
